@@ -23,7 +23,7 @@ def spec_programs(ctx, scale=1.0):
 
 RULE = ("programs rendered by the Lean specifications: expressions (all 1-operator trees x 3 parenthesisations + random depth 4) in 10 contexts, "
         "declarators (all derivation sequences <=2 + random <=6) in 11 contexts, declaration specifiers in random order, statement bodies (depth-1 exhaustive + random depth 3/5 with "
-        "declarations, pragmas, switch label chains), plus the accepted programs of the repository corpus")
+        "declarations, pragmas, switch label chains), plus hand-written programs (one-feature C99/C11 programs, 119 small functions in which every token matters to a compiler) and the accepted programs of the repository corpus")
 
 
 EXTRA = [
@@ -38,8 +38,8 @@ EXTRA = [
 
 
 def pool(ctx, scale=1.0, with_corpus=True):
-    from . import features
-    texts = [t for t, _ in spec_programs(ctx, scale)] + EXTRA + [p for p in features.PROGRAMS if "#" not in p]
+    from . import features, meaning
+    texts = [t for t, _ in spec_programs(ctx, scale)] + EXTRA + [p for p in features.PROGRAMS if "#" not in p] + meaning.PROGRAMS
     if with_corpus:
         texts += corpus.valid_programs()
     return list(dict.fromkeys(texts))
